@@ -82,7 +82,10 @@ def ob_complex(tier):
     bad = []
     for ta, a in vals:
         for tb, b in vals:
-            got = parser.parse((ta.rjust(16) + tb.rjust(16)).encode())
+            try:
+                got = parser.parse((ta.rjust(16) + tb.rjust(16)).encode())
+            except Exception as e:  # noqa: BLE001 - a blank half must give NaN, never an exception
+                got = f"raised {type(e).__name__}: {str(e)[:60]}"
             if not isinstance(got, complex) or repr(got.real) != repr(a) or repr(got.imag) != repr(b):
                 bad.append({"real text": ta, "imaginary text": tb, "got": repr(got)})
     res = {"verdict": "violated" if bad else "discharged", "queries": len(vals) ** 2, "replays": len(vals) ** 2}
